@@ -76,4 +76,8 @@ def timestamp_from_isodate(isodate):
         date = isodate
     else:
         date = datetime.datetime.strptime(isodate, "%Y-%m-%dT%H:%M:%S")
+    if date.tzinfo is not None:
+        # a time with a zone (2009-06-09T10:57:00Z in a YAML file) is that moment,
+        # not the same wall-clock time in the zone of the server
+        return date.timestamp()
     return mktime(date.timetuple())
